@@ -19,8 +19,9 @@ import (
 	"time"
 
 	"github.com/KevoDB/kevo/pkg/common/iterator"
-	"github.com/KevoDB/kevo/pkg/engine"
+	"github.com/KevoDB/kevo/pkg/transaction"
 	"github.com/KevoDB/kevo/pkg/verifhook"
+	"github.com/KevoDB/kevo/pkg/wal"
 	"pgregory.net/rapid"
 
 	"verif/internal/drive"
@@ -31,7 +32,11 @@ const rule = "case = rapid-drawn (configuration, 3-5 keys, optional setup transa
 	"transactions one after another; a transaction = read-only or read-write script of gets, puts with unique values, deletes, " +
 	"full and range scans, reads of own writes, think times, then commit or rollback; yield/sleep plan consumed cyclically at the " +
 	"tx.begin.*/tx.commit.*/storage.batch.*/wal.batch.* hook sites); plain writes are excluded as the property says; every " +
-	"transaction is recorded as one operation [begin invoked, commit/rollback returned] with everything it read; oracle = direct " +
+	"transaction is recorded as one operation [begin invoked, commit/rollback returned] with everything it read; optional reaper " +
+	"goroutine that calls Rollback on other clients' OPEN transactions from outside at drawn moments (what the registry's stale " +
+	"sweep, connection cleanup and shutdown do; such a transaction counts as rolled back, its calls that fail with the closed error " +
+	"end it, every read that returned successfully still has to be explained), optionally with the storage backend of the " +
+	"transaction manager wrapped so that the plan can delay the entry of a storage read; oracle = direct " +
 	"invariants (own writes seen, repeatable reads, no value of a rolled-back or not-yet-committing transaction, scans ordered and " +
 	"in bounds) and porcupine linearizability of the transactions against 'replay the script on a map, verify every read, apply " +
 	"writes iff committed' (strict serializability), including a final read-only transaction of the harness; non-trivial = at " +
@@ -83,6 +88,28 @@ type Case struct {
 	Clients [][]Tx    `json:"clients"`
 	Groups  []string  `json:"groups"`
 	Plan    []uint16  `json:"plan"` // 0 nothing, 1 Gosched, n >= 10 sleep n microseconds
+	// Reaper: a goroutine that, after each pause, calls Rollback from outside on the open transaction of
+	// client Client (or of the next client that has one open)
+	Reaper []ReapOp `json:"reaper,omitempty"`
+	// Backend: transactions are begun on a transaction.Manager whose StorageBackend is the engine's real storage
+	// manager behind a pass-through wrapper that consults the plan (group "backend") before each call; false =
+	// EngineFacade.BeginTransaction
+	Backend bool `json:"backend,omitempty"`
+}
+
+// ReapOp is one action of the reaper goroutine.
+type ReapOp struct {
+	PauseUs int `json:"pause_us"`
+	Client  int `json:"client"`
+}
+
+// ReapRec records one Rollback issued by the reaper.
+type ReapRec struct {
+	C    int    `json:"c"`
+	T    int    `json:"t"`
+	Call int64  `json:"call"`
+	Ret  int64  `json:"ret"`
+	Err  string `json:"err,omitempty"`
 }
 
 // Doc is the replay document.
@@ -91,8 +118,9 @@ type Doc struct {
 	Mode     string   `json:"mode"` // "history" | "rerun"
 	Runs     int      `json:"runs,omitempty"`
 	Case     Case     `json:"case"`
-	Verdict  *Verdict `json:"verdict,omitempty"`
-	History  []TxRec  `json:"history,omitempty"`
+	Verdict  *Verdict  `json:"verdict,omitempty"`
+	History  []TxRec   `json:"history,omitempty"`
+	Reaps    []ReapRec `json:"reaps,omitempty"`
 }
 
 var finalTx = Tx{RO: true, Commit: true}
@@ -164,7 +192,7 @@ func (c *Case) keyIndex(k []byte) int {
 
 // ------------------------------------------------------------- generator ----
 
-var allGroups = []string{"begin", "commit", "batch"}
+var allGroups = []string{"begin", "commit", "batch", "backend"}
 
 func groupOf(site string) string {
 	switch {
@@ -174,6 +202,8 @@ func groupOf(site string) string {
 		return "commit"
 	case strings.HasPrefix(site, "storage.batch."), strings.HasPrefix(site, "wal.batch."):
 		return "batch"
+	case strings.HasPrefix(site, "backend."):
+		return "backend"
 	}
 	return ""
 }
@@ -261,7 +291,20 @@ func genCase(t *rapid.T) Case {
 		}
 		c.Clients = append(c.Clients, txs)
 	}
+	if rapid.IntRange(0, 2).Draw(t, "reaper") != 0 {
+		n := rapid.IntRange(1, 10).Draw(t, "nreap")
+		for i := 0; i < n; i++ {
+			c.Reaper = append(c.Reaper, ReapOp{
+				PauseUs: rapid.SampledFrom([]int{0, 20, 50, 100, 200, 400, 800, 1500}).Draw(t, "rpause"),
+				Client:  rapid.IntRange(0, ncl-1).Draw(t, "rclient"),
+			})
+		}
+	}
+	c.Backend = rapid.Bool().Draw(t, "backend")
 	mask := rapid.IntRange(0, 1<<len(allGroups)-1).Draw(t, "groups")
+	if c.Backend && len(c.Reaper) > 0 {
+		mask |= 1 << 3 // delay storage reads at their entry: a forced rollback then likely meets a call in flight
+	}
 	for i, g := range allGroups {
 		if mask&(1<<i) != 0 {
 			c.Groups = append(c.Groups, g)
@@ -318,20 +361,73 @@ func (c *Case) bound(i int) []byte {
 	return c.Keys[i]
 }
 
+// txHandle is what the harness uses of a transaction.
+type txHandle interface {
+	Get(key []byte) ([]byte, error)
+	Put(key, value []byte) error
+	Delete(key []byte) error
+	NewIterator() iterator.Iterator
+	NewRangeIterator(startKey, endKey []byte) iterator.Iterator
+	Commit() error
+	Rollback() error
+}
+
+// openTx is what a client publishes while one of its transactions is open.
+type openTx struct {
+	h     txHandle
+	cl, t int
+}
+
+// slowBackend passes every call through to the engine's real storage manager
+// after consulting the perturbation plan.
+type slowBackend struct {
+	real    transaction.StorageBackend
+	perturb func(site string)
+}
+
+func (b *slowBackend) Get(key []byte) ([]byte, error) {
+	b.perturb("backend.get")
+	return b.real.Get(key)
+}
+func (b *slowBackend) ApplyBatch(entries []*wal.Entry) error {
+	b.perturb("backend.apply")
+	return b.real.ApplyBatch(entries)
+}
+func (b *slowBackend) GetIterator() (iterator.Iterator, error) {
+	b.perturb("backend.iter")
+	return b.real.GetIterator()
+}
+func (b *slowBackend) GetRangeIterator(start, end []byte) (iterator.Iterator, error) {
+	b.perturb("backend.iter")
+	return b.real.GetRangeIterator(start, end)
+}
+
+type runEnv struct {
+	begin func(ro bool) (txHandle, error)
+	now   func() int64
+	slots []atomic.Pointer[openTx] // per client: the open transaction, nil = none
+}
+
 // runTx executes one transaction script and records it.
-func (c *Case) runTx(e *engine.EngineFacade, cl, t int, tx *Tx, now func() int64) TxRec {
+func (c *Case) runTx(env *runEnv, cl, t int, tx *Tx) TxRec {
+	now := env.now
 	r := TxRec{C: cl, T: t}
 	think(tx.Think)
 	r.Call = now()
-	h, err := e.BeginTransaction(tx.RO)
+	h, err := env.begin(tx.RO)
 	r.Begun = now()
 	if err != nil {
 		r.EndCall, r.Ret, r.EndErr = r.Begun, r.Begun, "begin: "+err.Error()
 		return r
 	}
+	if cl >= 0 {
+		env.slots[cl].Store(&openTx{h: h, cl: cl, t: t})
+	}
 	for si, s := range tx.Steps {
 		think(s.Think)
 		var o Obs
+		var cerr error
+		o.S = now()
 		switch s.Op {
 		case "get":
 			v, err := h.Get(c.Keys[s.K])
@@ -340,16 +436,12 @@ func (c *Case) runTx(e *engine.EngineFacade, cl, t int, tx *Tx, now func() int64
 				o.R = c.decode(v)
 			case drive.IsNotFound(err):
 			default:
-				o.Err = err.Error()
+				cerr = err
 			}
 		case "put":
-			if err := h.Put(c.Keys[s.K], valueBytes(c.valueID(cl, t, si), s.Len)); err != nil {
-				o.Err = err.Error()
-			}
+			cerr = h.Put(c.Keys[s.K], valueBytes(c.valueID(cl, t, si), s.Len))
 		case "del":
-			if err := h.Delete(c.Keys[s.K]); err != nil {
-				o.Err = err.Error()
-			}
+			cerr = h.Delete(c.Keys[s.K])
 		case "scan":
 			if s.A < 0 && s.B < 0 {
 				o.Scan = c.readIter(h.NewIterator())
@@ -358,6 +450,14 @@ func (c *Case) runTx(e *engine.EngineFacade, cl, t int, tx *Tx, now func() int64
 			}
 		}
 		o.At = now()
+		if cerr != nil {
+			if isClosedErr(cerr.Error()) {
+				// the transaction was closed under us: this is its end, nothing was observed
+				r.ClosedAt = si + 1
+				break
+			}
+			o.Err = cerr.Error()
+		}
 		r.Obs = append(r.Obs, o)
 	}
 	r.EndCall = now()
@@ -368,14 +468,17 @@ func (c *Case) runTx(e *engine.EngineFacade, cl, t int, tx *Tx, now func() int64
 		err = h.Rollback()
 	}
 	r.Ret = now()
+	if cl >= 0 {
+		env.slots[cl].Store(nil)
+	}
 	if err != nil {
 		r.EndErr = err.Error()
 	}
 	return r
 }
 
-// runCase executes the case once and returns the recorded history.
-func runCase(c *Case) []TxRec {
+// runCase executes the case once and returns the recorded history and the reaper's actions.
+func runCase(c *Case) ([]TxRec, []ReapRec) {
 	dir, err := os.MkdirTemp("", "c04-")
 	if err != nil {
 		panic(err)
@@ -391,30 +494,38 @@ func runCase(c *Case) []TxRec {
 		enabled[g] = true
 	}
 	var ctr atomic.Int64
+	perturb := func(site string) {
+		if len(c.Plan) == 0 || !enabled[groupOf(site)] {
+			return
+		}
+		switch d := c.Plan[int(ctr.Add(1))%len(c.Plan)]; {
+		case d == 0:
+		case d < 10:
+			runtime.Gosched()
+		default:
+			time.Sleep(time.Duration(d) * time.Microsecond)
+		}
+	}
 	if len(c.Plan) > 0 && len(c.Groups) > 0 {
-		verifhook.Set(func(site string) {
-			if !enabled[groupOf(site)] {
-				return
-			}
-			switch d := c.Plan[int(ctr.Add(1))%len(c.Plan)]; {
-			case d == 0:
-			case d < 10:
-				runtime.Gosched()
-			default:
-				time.Sleep(time.Duration(d) * time.Microsecond)
-			}
-		})
+		verifhook.Set(perturb)
 		defer verifhook.Reset()
 	}
 	base := time.Now()
-	now := func() int64 { return int64(time.Since(base)) }
+	env := &runEnv{now: func() int64 { return int64(time.Since(base)) }, slots: make([]atomic.Pointer[openTx], len(c.Clients))}
+	if c.Backend {
+		mgr := transaction.NewManager(&slowBackend{real: e.VerifStorage(), perturb: perturb}, nil)
+		env.begin = func(ro bool) (txHandle, error) { return mgr.BeginTransaction(ro) }
+	} else {
+		env.begin = func(ro bool) (txHandle, error) { return e.BeginTransaction(ro) }
+	}
 	var all []TxRec
 	if c.Setup != nil {
-		all = append(all, c.runTx(e, -1, 0, c.Setup, now))
+		all = append(all, c.runTx(env, -1, 0, c.Setup))
 	}
 	hist := make([][]TxRec, len(c.Clients))
 	start := make(chan struct{})
-	var wg sync.WaitGroup
+	var wg, rwg sync.WaitGroup
+	var done atomic.Bool
 	for cl := range c.Clients {
 		wg.Add(1)
 		go func(cl int) {
@@ -422,18 +533,73 @@ func runCase(c *Case) []TxRec {
 			<-start
 			// one transaction at a time per goroutine (documented limitation of the single lock)
 			for t := range c.Clients[cl] {
-				hist[cl] = append(hist[cl], c.runTx(e, cl, t, &c.Clients[cl][t], now))
+				hist[cl] = append(hist[cl], c.runTx(env, cl, t, &c.Clients[cl][t]))
 			}
 		}(cl)
 	}
+	var reaps []ReapRec
+	if len(c.Reaper) > 0 {
+		rwg.Add(1)
+		go func() {
+			defer rwg.Done()
+			<-start
+			for _, op := range c.Reaper {
+				if op.PauseUs > 0 {
+					time.Sleep(time.Duration(op.PauseUs) * time.Microsecond)
+				} else {
+					runtime.Gosched()
+				}
+				if done.Load() {
+					return
+				}
+				for i := 0; i < len(c.Clients); i++ {
+					o := env.slots[(op.Client+i)%len(c.Clients)].Load()
+					if o == nil {
+						continue
+					}
+					rr := ReapRec{C: o.cl, T: o.t, Call: env.now()}
+					err := o.h.Rollback()
+					rr.Ret = env.now()
+					if err != nil {
+						rr.Err = err.Error()
+					}
+					reaps = append(reaps, rr)
+					break
+				}
+			}
+		}()
+	}
 	close(start)
 	wg.Wait()
+	done.Store(true)
+	rwg.Wait()
 	for _, h := range hist {
 		all = append(all, h...)
 	}
-	all = append(all, c.runTx(e, -2, 0, c.txOf(-2, 0), now))
+	// a Rollback of the reaper that returned nil is the one that closed the transaction
+	for _, rr := range reaps {
+		if rr.Err != "" {
+			continue
+		}
+		for i := range all {
+			r := &all[i]
+			if r.C != rr.C || r.T != rr.T {
+				continue
+			}
+			r.Forced, r.ForcedCall, r.ForcedRet = true, rr.Call, rr.Ret
+			// iterators are used outside the transaction's mutex: a scan that had not finished when the
+			// forced rollback was invoked is not a read of the transaction any more
+			tx := c.txOf(r.C, r.T)
+			for si := range r.Obs {
+				if tx.Steps[si].Op == "scan" && r.Obs[si].At >= rr.Call {
+					r.Obs[si].Void = true
+				}
+			}
+		}
+	}
+	all = append(all, c.runTx(env, -2, 0, c.txOf(-2, 0)))
 	drive.Quiesce(e)
-	return all
+	return all, reaps
 }
 
 // Stats are measurements of one recorded history.
@@ -441,6 +607,10 @@ type Stats struct {
 	Conflicts   int // pairs of transactions overlapping in real time that touch a common key, one of them writing it
 	ROvsRW      int // ... of which one is read-only
 	CommitErrs  int
+	Forced      int // transactions closed by the reaper
+	ForcedBusy  int // ... while a call of that transaction was in flight
+	ForcedInGet int // ... while a Get that went on to return successfully was in flight
+	VoidScans   int
 	Txs         int
 	LockWaiters int // transactions that were invoked while another one held (or waited for) the lock
 }
@@ -473,8 +643,31 @@ func measure(c *Case, h []TxRec) Stats {
 	nk := len(c.Keys)
 	st.Txs = len(h)
 	for i := range h {
-		if h[i].EndErr != "" {
+		if h[i].EndErr != "" && !(h[i].Forced && isClosedErr(h[i].EndErr)) {
 			st.CommitErrs++
+		}
+		if h[i].Forced {
+			st.Forced++
+			busy, inGet := false, false
+			tx := c.txOf(h[i].C, h[i].T)
+			for si, o := range h[i].Obs {
+				if o.Void {
+					st.VoidScans++
+				}
+				// in flight at some moment of the forced Rollback call
+				if o.S <= h[i].ForcedRet && o.At >= h[i].ForcedCall {
+					busy = true
+					if tx.Steps[si].Op == "get" {
+						inGet = true
+					}
+				}
+			}
+			if busy {
+				st.ForcedBusy++
+			}
+			if inGet {
+				st.ForcedInGet++
+			}
 		}
 		if h[i].C < 0 {
 			continue
@@ -511,11 +704,11 @@ func measure(c *Case, h []TxRec) Stats {
 	return st
 }
 
-func evaluate(c *Case) (*Verdict, []TxRec, Stats, bool) {
-	h := runCase(c)
+func evaluate(c *Case) (*Verdict, []TxRec, []ReapRec, Stats, bool) {
+	h, reaps := runCase(c)
 	st := measure(c, h)
 	res := checkHistory(c, h, 10*time.Second)
-	return res.V, h, st, res.Inconclusive
+	return res.V, h, reaps, st, res.Inconclusive
 }
 
 func record(c *Case, st Stats, inconclusive bool) {
@@ -568,11 +761,30 @@ func record(c *Case, st Stats, inconclusive bool) {
 	if len(c.Groups) > 0 {
 		cl = append(cl, "perturbed")
 	}
+	if len(c.Reaper) > 0 {
+		cl = append(cl, "reaper")
+	}
+	if c.Backend {
+		cl = append(cl, "wrapped_storage_backend")
+	}
+	if st.Forced > 0 {
+		cl = append(cl, "forced_rollback")
+	}
+	if st.ForcedBusy > 0 {
+		cl = append(cl, "forced_rollback_while_call_in_flight")
+	}
+	if st.ForcedInGet > 0 {
+		cl = append(cl, "forced_rollback_while_successful_get_in_flight")
+	}
 	ev.R().Case(ev.Hash(c), nt, cl, func() any { return c })
 	ev.R().Count("transactions", st.Txs)
 	ev.R().Count("conflicting_overlapping_pairs", st.Conflicts)
 	ev.R().Count("transactions_invoked_while_another_was_open", st.LockWaiters)
 	ev.R().Count("commit_or_rollback_errors", st.CommitErrs)
+	ev.R().Count("forced_rollbacks", st.Forced)
+	ev.R().Count("forced_rollbacks_while_call_in_flight", st.ForcedBusy)
+	ev.R().Count("forced_rollbacks_while_successful_get_in_flight", st.ForcedInGet)
+	ev.R().Count("scans_voided_by_forced_rollback", st.VoidScans)
 	if inconclusive {
 		ev.R().Count("porcupine_timeouts_inconclusive", 1)
 	}
@@ -581,10 +793,10 @@ func record(c *Case, st Stats, inconclusive bool) {
 func TestProp(t *testing.T) {
 	rapid.Check(t, func(t *rapid.T) {
 		c := genCase(t)
-		v, h, st, inc := evaluate(&c)
+		v, h, reaps, st, inc := evaluate(&c)
 		record(&c, st, inc)
 		if v != nil {
-			path := ev.R().Fail(v.Sig, v.Msg, Doc{Property: "C04", Mode: "history", Case: c, Verdict: v, History: h})
+			path := ev.R().Fail(v.Sig, v.Msg, Doc{Property: "C04", Mode: "history", Case: c, Verdict: v, History: h, Reaps: reaps})
 			t.Fatalf("C04 violated: %s: %s (replay %s)", v.Sig, v.Msg, path)
 		}
 	})
@@ -615,7 +827,7 @@ func TestReplay(t *testing.T) {
 		v = checkHistory(&d.Case, d.History, 60*time.Second).V
 	}
 	for i := 0; i < runs; i++ {
-		if rv, _, _, _ := evaluate(&d.Case); rv != nil {
+		if rv, _, _, _, _ := evaluate(&d.Case); rv != nil {
 			again++
 			if first == nil {
 				first = rv
